@@ -40,9 +40,15 @@ def run(tier, seed, t0):
     na = T(tier, 120, 5000)
     R.run_inv(Inv("geometry", n, "plain", timeout=T(tier, 600, 14400)), seed, wd, m)
     R.run_inv(Inv("geometry", na, "asan", timeout=T(tier, 900, 14400), first=n), seed, wd, m)
-    b = m.bins; total = m.evaluations
+    total_geometry = m.evaluations
+    # measures reported after a history (refinement passes, node moves, force phases, compaction), against the own measures of the live mesh
+    nh = T(tier, 1500, 60000)
+    R.run_inv(Inv("geometry_hist", nh, "plain", timeout=T(tier, 900, 14400), tag="geometry_hist/plain"), seed, wd, m)
+    R.run_inv(Inv("geometry_hist", T(tier, 100, 2000), "asan", timeout=T(tier, 900, 14400), first=nh, tag="geometry_hist/asan"), seed, wd, m)
+    b = m.bins; total = total_geometry
     regular = total - sum(b.get("flip_exhaustive_meshes:" + s, 0) for s in SMALL)
     floors = {
+        "states_judged_after_a_history": (m.bins.get("hist_judged_states", 0), 3 * nh), "history_cells_with_remeshing": (m.bins.get("hist_cells_with_remeshing", 0), 0.8 * nh),
         "meshes": (total, 0.99 * (n + na)),
         "nontrivial_meshes(all 8 copies evaluated)": (m.nontrivial, 0.99 * (n + na)),
         "builds_checked": (b.get("builds_checked", 0), 8.9 * regular),
